@@ -114,6 +114,18 @@ def direct_laws(op, rng, n_sets):
             if out.shape != ref.shape or not np.allclose(out / s_, ref, rtol=0, atol=1e-9 * np.abs(ref).max()) or abs(p_out - s_ ** 2 * p_in) > 1e-8 * s_ ** 2 * p_in:
                 bad.append(("%s:not-homogeneous:amplitude-scale" % name, dict(scale=s_, err=float(np.abs(out / s_ - ref).max() / np.abs(ref).max()) if out.shape == ref.shape else None)))
                 return bad, done
+    # the dark field: P(0) = 0 exactly (linearity at the zero vector), also as U - U and 0 * U
+    N, d1, lam, z = 8, 0.01, 1e-6, 500.0
+    U = rng.standard_normal((N, N)) + 1j * rng.standard_normal((N, N))
+    for label, Z in (("zeros", np.zeros((N, N), complex)), ("U-U", U - U), ("0*U", 0 * U), ("real-zeros", np.zeros((N, N)))):
+        for name, f in (("angularSpectrum", lambda W: op.angularSpectrum(W, lam, d1, 1.5 * d1, z)), ("angularSpectrum[m=1]", lambda W: op.angularSpectrum(W, lam, d1, d1, -z)),
+                        ("twoStepFresnel", lambda W: op.twoStepFresnel(W, lam, d1, 1.5 * d1, z)), ("oneStepFresnel", lambda W: op.oneStepFresnel(W, lam, d1, z)),
+                        ("lensAgainst", lambda W: op.lensAgainst(W, lam, d1, z))):
+            out = np.asarray(f(Z.copy()))
+            done += 1
+            if out.shape != (N, N) or not np.all(out == 0):
+                bad.append(("%s:not-linear:dark-field" % name.split("[")[0], dict(input=label, non_finite=int((~np.isfinite(out)).sum()))))
+                return bad, done
     # real-valued and single-precision input fields
     N, d1, lam, z = 8, 0.01, 1e-6, 500.0
     Ur = rng.standard_normal((N, N))
